@@ -204,27 +204,39 @@ def make_overlay(driver):
 
 
 def run_go2coq(log):
-    """Regenerate coq/Gen/*.v from the working tree. Returns (ok, message)."""
-    src = os.path.join(HARNESS, "cmd", "go2coq")
-    if not os.path.exists(os.path.join(src, "main.go")):
-        return True, "go2coq not present"
-    binp = os.path.join(HARNESS, "bin", "go2coq")
-    os.makedirs(os.path.dirname(binp), exist_ok=True)
-    rc, out, _ = sh(["go", "build", "-o", binp, "./cmd/go2coq"], cwd=HARNESS, env=GOENV, timeout=300)
-    log.append("== go build go2coq\n" + out)
-    if rc != 0:
-        return False, "go2coq build failed"
-    tmp = os.path.join(WORK, "gen_tmp")
-    shutil.rmtree(tmp, ignore_errors=True)
-    os.makedirs(tmp)
-    rc, out, _ = sh([binp, "-repo", REPO, "-out", tmp], env=GOENV, timeout=120)
-    log.append("== go2coq\n" + out)
-    if rc != 0:
-        return False, "go2coq failed: " + out[-2000:]
+    """Regenerate coq/Gen/*.v from the working tree: runs harness/cmd/go2coq and every harness/cmd/*gen
+    (each takes -repo <dir> -out <dir> and writes .v files). Returns (ok, message)."""
+    cmds = sorted(d for d in os.listdir(os.path.join(HARNESS, "cmd"))
+                  if (d == "go2coq" or d.endswith("gen")) and os.path.isdir(os.path.join(HARNESS, "cmd", d)))
+    if not cmds:
+        return True, "no translator present"
+    msgs = []
+    ok = True
+    os.makedirs(os.path.join(HARNESS, "bin"), exist_ok=True)
     os.makedirs(os.path.join(COQ, "Gen"), exist_ok=True)
-    for f in os.listdir(tmp):
-        write_if_changed(os.path.join(COQ, "Gen", f), open(os.path.join(tmp, f)).read())
-    return True, out.strip()
+    write_if_changed(os.path.join(HARNESS, "go.sum"), open(os.path.join(REPO, "go.sum")).read())
+    for d in cmds:
+        binp = os.path.join(HARNESS, "bin", d)
+        rc, out, _ = sh(["go", "build", "-o", binp, "./cmd/" + d], cwd=HARNESS, env=GOENV, timeout=300)
+        log.append(f"== go build {d}\n" + out)
+        if rc != 0:
+            ok = False
+            msgs.append(f"{d}: build failed: " + out[-800:])
+            continue
+        tmp = os.path.join(WORK, "gen_tmp_" + d)
+        shutil.rmtree(tmp, ignore_errors=True)
+        os.makedirs(tmp)
+        rc, out, _ = sh([binp, "-repo", REPO, "-out", tmp], env=GOENV, timeout=120)
+        log.append(f"== {d}\n" + out)
+        if rc != 0:
+            ok = False
+            msgs.append(f"{d} failed: " + out[-1500:])
+            continue
+        for f in os.listdir(tmp):
+            if f.endswith(".v"):
+                write_if_changed(os.path.join(COQ, "Gen", f), open(os.path.join(tmp, f)).read())
+        msgs.append(f"{d}: " + " ".join(out.split())[:300])
+    return ok, "; ".join(msgs)
 
 
 def parse_assumptions(out):
